@@ -34,7 +34,7 @@ fn put_list(l: &[BorrowedTerm<'_>], s: &mut String) {
 
 /// the canonical text of canon.rs, written from the zero-copy tree itself (no `to_owned` on the way, except for
 /// the free variables of a fun, which the zero-copy tree stores owned)
-fn put(t: &BorrowedTerm<'_>, s: &mut String) {
+pub fn put(t: &BorrowedTerm<'_>, s: &mut String) {
     match t {
         BorrowedTerm::Atom(a) => {
             s.push('A');
@@ -121,7 +121,44 @@ fn put(t: &BorrowedTerm<'_>, s: &mut String) {
     }
 }
 
+/// one letter per `Cow` of the tree in pre-order: `b` borrowed from the input, `o` owned by the tree
+pub fn flags(t: &BorrowedTerm<'_>, s: &mut String) {
+    use std::borrow::Cow;
+    fn one(s: &mut String, borrowed: bool) {
+        s.push(if borrowed { 'b' } else { 'o' });
+    }
+    match t {
+        BorrowedTerm::Atom(a) => one(s, matches!(a, Cow::Borrowed(_))),
+        BorrowedTerm::String(a) => one(s, matches!(a, Cow::Borrowed(_))),
+        BorrowedTerm::Binary(b) => one(s, matches!(b, Cow::Borrowed(_))),
+        BorrowedTerm::BitBinary { bytes, .. } => one(s, matches!(bytes, Cow::Borrowed(_))),
+        BorrowedTerm::List(l) | BorrowedTerm::Tuple(l) => l.iter().for_each(|e| flags(e, s)),
+        BorrowedTerm::ImproperList { elements, tail } => {
+            elements.iter().for_each(|e| flags(e, s));
+            flags(tail, s);
+        }
+        BorrowedTerm::Map(m) => m.iter().for_each(|(k, v)| {
+            flags(k, s);
+            flags(v, s);
+        }),
+        _ => {}
+    }
+}
+
+/// `<structural text> <flags>` of a zero-copy tree (the argument form of the `c10own` / `c10isb` requests)
+pub fn tree_arg(t: &BorrowedTerm<'_>) -> String {
+    let (mut a, mut f) = (String::new(), String::new());
+    put(t, &mut a);
+    flags(t, &mut f);
+    if f.is_empty() {
+        f.push('-');
+    }
+    format!("{} {}", a, f)
+}
+
 pub struct Borrowed {
+    /// `<structural text> <flags>` of the tree and what `is_borrowed` says about it
+    pub tree: Option<(String, bool)>,
     /// `ok <term>` / `err` / `trailing <n>` / `panic` (the form of the `decb` tie)
     pub plain: String,
     /// the same with the context: `err <offset> <hex of display_path>` / `trailing <n> <offset> <path>`
@@ -146,17 +183,18 @@ pub fn borrowed_full(b: &[u8]) -> Borrowed {
             // the conversion back (`From<&OwnedTerm>`) and forth once more must be the identity as well
             let o = t.to_owned();
             let back = BorrowedTerm::from(&o).to_owned();
-            (o, s, back)
+            (o, s, back, (tree_arg(&t), t.is_borrowed()))
         })
     });
     match r {
-        Ok(Ok((t, s, back))) => {
+        Ok(Ok((t, s, back, tree))) => {
             let txt = term_text(&t);
             // `==` on terms is IEEE on floats: a term holding a NaN is not equal to itself, so `==` is asked only otherwise
             #[allow(clippy::eq_op)]
             let reflexive = t == t;
             let stable = (back == t || !reflexive) && term_text(&back) == txt;
             Borrowed {
+                tree: Some(tree),
                 plain: format!("ok {}", txt),
                 ctx: format!("ok {}", txt),
                 term: Some(t),
@@ -169,16 +207,17 @@ pub fn borrowed_full(b: &[u8]) -> Borrowed {
             let path = hex(e.context.display_path().as_bytes());
             match e.error {
                 DecodeError::TrailingData(n) => Borrowed {
+                    tree: None,
                     plain: format!("trailing {}", n),
                     ctx: format!("trailing {} {} {}", n, off, path),
                     term: None,
                     raw_text: None,
                     offset: Some(off),
                 },
-                _ => Borrowed { plain: "err".to_string(), ctx: format!("err {} {}", off, path), term: None, raw_text: None, offset: Some(off) },
+                _ => Borrowed { tree: None, plain: "err".to_string(), ctx: format!("err {} {}", off, path), term: None, raw_text: None, offset: Some(off) },
             }
         }
-        Err(_) => Borrowed { plain: "panic".to_string(), ctx: "panic".to_string(), term: None, raw_text: None, offset: None },
+        Err(_) => Borrowed { tree: None, plain: "panic".to_string(), ctx: "panic".to_string(), term: None, raw_text: None, offset: None },
     }
 }
 
@@ -222,6 +261,20 @@ pub fn one(ctx: &mut Ctx, tag: &str, b: &[u8], modern: bool) {
                 "c13-to-owned-differs",
                 &format!("{} zero-copy-tree={} converted={}", hex(b), bw.raw_text.clone().unwrap_or_default(), term_text(bt)),
             );
+        }
+    }
+    // the conversion itself, tied to its model (Impl/Convert.lean): `to_owned` and `is_borrowed` of the tree the zero-copy
+    // decoder built — its structural text and the ownership flag of every `Cow` are the request, the converted term the answer
+    if let (Some((tree, isb)), Some(bt)) = (&bw.tree, &bw.term) {
+        if b.len() <= 1500 {
+            ctx.tie(tag, &format!("c10own {}", tree), &term_text(bt));
+            ctx.tie(tag, &format!("c10isb {}", tree), if *isb { "true" } else { "false" });
+            // judged independently of the model: the tree borrows exactly when one of its `Cow`s is borrowed
+            ctx.prop("c13-is-borrowed-wrong", &format!("c10cow {} {}", tree.rsplit(' ').next().unwrap_or("-"), isb), "ok");
+            ctx.count(if *isb { "tree_borrows" } else { "tree_owns_everything" });
+            if tree.contains('o') {
+                ctx.count("tree_with_owned_cow");
+            }
         }
     }
     // clause 2: judged by the Spec's recogniser of the modern layout
@@ -503,6 +556,31 @@ fn contexts(ctx: &mut Ctx) {
     }
     for b in [vec![], vec![131], vec![130, 106], vec![0], vec![131, 106, 0], vec![131, 106, 106, 106], vec![131, 131, 106]] {
         one(ctx, "top", &b, false);
+    }
+    // who owns the text: an ATOM_EXT name is borrowed from the input when it is ASCII and owned by the tree (transcoded to
+    // UTF-8) otherwise; UTF-8 atoms, binaries and bit-strings are always borrowed — alone and under every container
+    for name in [&b"abc"[..], &[0xe9, b'x'][..], &[0xff][..], &[][..], &[b'a', 0x80, b'b'][..]] {
+        let mut a = vec![100u8, 0, name.len() as u8];
+        a.extend_from_slice(name);
+        let mut shapes: Vec<Vec<u8>> = vec![a.clone()];
+        let mut t = vec![104u8, 3];
+        t.extend_from_slice(&a);
+        t.extend_from_slice(&[109, 0, 0, 0, 1, 7, 119, 1, b'u']);
+        shapes.push(t);
+        let mut l = vec![108u8, 0, 0, 0, 2, 77, 0, 0, 0, 1, 3, 0xe0];
+        l.extend_from_slice(&a);
+        l.extend_from_slice(&a);
+        shapes.push(l);
+        let mut m = vec![116u8, 0, 0, 0, 2];
+        m.extend_from_slice(&a);
+        m.extend_from_slice(&[97, 1, 97, 2]);
+        m.extend_from_slice(&a);
+        shapes.push(m);
+        for sh in shapes {
+            let mut b = vec![131u8];
+            b.extend_from_slice(&sh);
+            one(ctx, "cow", &b, false);
+        }
     }
 }
 
